@@ -304,6 +304,10 @@ def texts():
     st.text(alphabet=_SIMPLE, min_size=1, max_size=6),
     st.text(alphabet=_ALPHA, min_size=1, max_size=14),
     st.sampled_from([" ", "42", "7", "a & b", "Tom & Jerry", " x", "x ", "- Hi.", "00:00:01,000"]),
+    # an ampersand that starts no character reference stays an ampersand, wherever it sits in the cue (html.parser holds back a text
+    # run ending in a possible reference until it is closed)
+    # (followed by a digit here: "&" + letters of a neighbouring piece could spell a legacy reference such as "&gt")
+    st.sampled_from(["1&2", "R&2", "&1", "a&1", "x &2", "AT&7", "&&1"]),
   )
 
 
